@@ -50,7 +50,7 @@ def run_vector(args):
     H = min(ours, theirs) if ours and theirs else 0
     cfg = edev.base_config(hold=ours, routes=routes_block(nroutes))
     world_env = {'bgp.openwait': 6}
-    horizon = 3 * max(H, 3) + 5
+    horizon = horizon_for(H)
     with World(cfg, env=world_env) as w:
         env = c05.Env(w, hold=theirs, script=[], config_name='active')
         if scenario == 'no-open':
@@ -111,6 +111,11 @@ def run_vector(args):
     notif = tuple((t, b) for t, ty, b in tx if ty == wire.NOTIFICATION)
     outcome = (H, scenario, closed_at is not None, notif[0][1] if notif else None, len(ka_times))
     return viols, outcome, (arrivals, closed_at, notif, ka_times[:6])
+
+
+def horizon_for(H):
+    """seconds observed after establishment: three hold times for the small ones, one and a bit for the large ones"""
+    return 3 * max(H, 3) + 5 if H <= 200 else H + H // 3 + 10
 
 
 def oracle(H, scenario, arrivals, tx, closed_at, horizon, sm):
@@ -179,10 +184,10 @@ def oracle(H, scenario, arrivals, tx, closed_at, horizon, sm):
     return viols
 
 
-def vectors(horizon, k, kinds=('K', 'U')):
+def vectors(horizon, k, kinds=('K', 'U'), stride=1):
     yield ()
     for n in range(1, k + 1):
-        for secs in itertools.combinations(range(horizon), n):
+        for secs in itertools.combinations(range(0, horizon, stride), n):
             for ks in itertools.product(kinds, repeat=n):
                 yield tuple(zip(secs, ks))
 
@@ -215,6 +220,12 @@ def plan(tier):
     else:
         p += [(9, 9, 0.05, 0, 'slow-ka:4.5', 2), (9, 9, 0.05, 0, 'slow-ka:7.5', 3), (3, 9, 0.05, 0, 'slow-ka:2.5', 3), (9, 9, 0.95, 0, 'slow-ka:8.5', 2)]
     p += [(9, 9, 0.05, 0, 'no-open', 0), (9, 9, 0.05, 0, 'no-keepalive', 0), (3, 3, 0.05, 0, 'no-keepalive', 0)]
+    # the default hold time (180 s) and large ones on a coarse grid: the arithmetic must not depend on H being small
+    if tier == 'quick':
+        p += [(180, 180, 0.05, 0, 'est', 1, 45), (180, 90, 0.5, 0, 'est', 0)]
+    else:
+        p += [(180, 180, 0.05, 0, 'est', 2, 30), (180, 90, 0.5, 0, 'est', 1, 15), (3600, 3600, 0.05, 0, 'est', 1, 900), (3600, 240, 0.05, 0, 'est', 1, 60),
+              (65535, 65535, 0.05, 0, 'est', 0), (65535, 0, 0.05, 0, 'est', 0)]
     return p
 
 
@@ -224,17 +235,19 @@ def signature(sig):
 
 def run(ctx: core.Ctx) -> None:
     ctx.rule = ('for each (our hold, peer hold, sub-second phase, configured routes, scenario): every arrival vector with <= k sends (KEEPALIVE or UPDATE, '
-                'plus single 30-UPDATE bursts and uninterrupted streams of one UPDATE per 50 / 90 ms lasting H/3+1.5 and H+1.5 s) on a 1-second grid over 3H+5 virtual seconds; non-trivial = distinct (H, scenario, closed, notification, keepalive count) outcome')
+                'plus single 30-UPDATE bursts and uninterrupted streams of one UPDATE per 50 / 90 ms lasting H/3+1.5 and H+1.5 s) on a 1-second grid over 3H+5 virtual seconds (hold times 180 / 3600 / 65535: a coarse grid over 4H/3+10 s); non-trivial = distinct (H, scenario, closed, notification, keepalive count) outcome')
     ctx.assumptions += ['allowance on every deadline: 2 s integer-clock granularity + 0.2 s loop period', 'time only moves when the controller says so']
     pool = mp.Pool(min(16, os.cpu_count() or 1))
     budget = ctx.budget_s or (170 if ctx.tier == 'quick' else 1700)
     try:
-        for ours, theirs, phase, nroutes, scenario, k in plan(ctx.tier):
+        for entry in plan(ctx.tier):
+            ours, theirs, phase, nroutes, scenario, k = entry[:6]
+            stride = entry[6] if len(entry) > 6 else 1
             H = min(ours, theirs) if ours and theirs else 0
-            horizon = 3 * max(H, 3) + 5
+            horizon = horizon_for(H)
             params = (ours, theirs, phase, nroutes, scenario)
-            vecs = list(vectors(horizon, k))
-            if (scenario == 'est' or scenario.startswith('slow-ka')) and k >= 1:
+            vecs = list(vectors(horizon, k, stride=stride))
+            if (scenario == 'est' or scenario.startswith('slow-ka')) and k >= 1 and stride == 1:
                 vecs += [((sec, 'B'),) for sec in range(horizon)]
                 if H:
                     # dense inbound streams lasting longer than a keepalive interval / longer than the hold time
@@ -250,8 +263,8 @@ def run(ctx: core.Ctx) -> None:
                 ctx.add_to_set('outcomes', outcome)
                 for sig, what in viols:
                     ctx.violation(sig, f'{params} vector {v}: {what}', {'params': list(params), 'vector': [list(x) for x in v]})
-            ctx.coverage_extra.setdefault('plan', []).append({'params': list(params), 'k': k, 'vectors': len(vecs), 'horizon_s': horizon})
-            ctx.sample({'params': list(params), 'vector': [list(x) for x in vecs[len(vecs) // 2]], 'observed': str(results[len(vecs) // 2][2])[:300]})
+            ctx.coverage_extra.setdefault('plan', []).append({'params': list(params), 'k': k, 'grid_s': stride, 'vectors': len(vecs), 'horizon_s': horizon})
+            ctx.sample({'params': list(params), 'stride': stride, 'vector': [list(x) for x in vecs[len(vecs) // 2]], 'observed': str(results[len(vecs) // 2][2])[:300]})
         ctx.counters['states'] = ctx.set_size('outcomes')
         ctx.counters['nontrivial'] = ctx.set_size('outcomes')
     finally:
